@@ -145,9 +145,14 @@ def functor_cases(draw, tier):
             img = draw(gen.diagrams_to(
                 cls, image_type(obmap, dom), image_type(obmap, cod),
                 pool=tpool, names=TARGET, max_boxes=2, max_width=5))
-            images.append({"gen": [name, [list(x) for x in dom],
-                                   [list(x) for x in cod], word],
-                           "image": img})
+            entry = {"gen": [name, [list(x) for x in dom],
+                             [list(x) for x in cod], word], "image": img}
+            if cls != "cat" and len(images) < 2:
+                # a second, parallel image: the box may be sent to their sum
+                entry["alt"] = draw(gen.diagrams_to(
+                    cls, image_type(obmap, dom), image_type(obmap, cod),
+                    pool=tpool, names=TARGET, max_boxes=2, max_width=5))
+            images.append(entry)
     n = len(d["layers"])
     i = draw(st.integers(0, n))
     return {"cls": cls, "d": d, "e": e, "par": par, "ob": obmap,
@@ -235,6 +240,7 @@ def check_functor(case):
         for t in (d.dom, d.cod):
             eq_ty(F(t.l), F(t).l, "left-adjoint")
             eq_ty(F(t.r), F(t).r, "right-adjoint")
+    check_sum_images(case, cls)
     lens = [len(v) for v in case["ob"].values()]
     wide = any(b["k"] in ("cup", "cap", "swap")
                and max(len(case["ob"][b["l"][0]]),
@@ -245,6 +251,32 @@ def check_functor(case):
                                               else []),
                 show="F({}) = {}".format(common.show(d, 150),
                                          common.show(Fd, 150)))
+
+
+def check_sum_images(case, cls):
+    """ Boxes sent to formal sums of two parallel diagrams: the image of
+    two boxes side by side (or one after the other) is the tensor (composite)
+    of their images, term for term. """
+    with_alt = [g for g in case["images"] if "alt" in g]
+    if cls == "cat" or len(with_alt) < 2:
+        return
+    m = specs.mod(cls)
+    ob = {specs.ty(cls, [[n, 0]]): specs.ty(cls, img)
+          for n, img in case["ob"].items()}
+    ar, boxes = {}, []
+    for g in with_alt:
+        name, dom, cod = g["gen"][:3]
+        word = g["gen"][3] if len(g["gen"]) > 3 else False
+        box = specs.box(cls, {"k": "box", "name": name, "dom": dom,
+                              "cod": cod, "dag": False, "word": word})
+        ar[box] = specs.build(g["image"]) + specs.build(g["alt"])
+        boxes.append(box)
+    G = m.Functor(ob, ar)
+    a, b = boxes
+    eq(G(a @ b), G(a) @ G(b), "tensor-of-sum-images")
+    eq(G(b @ a @ b), G(b) @ G(a) @ G(b), "tensor-of-sum-images")
+    if specs.tkey(a.cod) == specs.tkey(b.dom):
+        eq(G(a >> b), G(a) >> G(b), "composite-of-sum-images")
 
 
 def eq_ty(x, y, label):
